@@ -34,11 +34,12 @@ res "demo on pristine current tree: exit $PR"
 ( cd $SCR && go test -vet=off -count=1 ./pkg/... > $DST/pinned.log 2>&1 ); T=$?
 ( cd $SCR && timeout 900 $RUNDEMO > $DST/demo_changed.log 2>&1 ); CH=$?
 res "with change: build exit $B, pinned tests exit $T, demo exit $CH"
-git -C /repo worktree remove --force $SCR; rm -rf $SCR
-# now our checks
-cd /repo && git apply $DST/patch.diff || { res "cannot apply to /repo"; exit 3; }
+# now our checks, against the scratch copy (patch still applied there); /repo is not touched
+( cd $SCR && rm -rf server/zz_seed_demo_test.go deliver )
+ALTD=/tmp/seedalt-$P-$N; rm -rf $ALTD; mkdir -p $ALTD
 for Q in $P "$@"; do
-  ( cd /verif && timeout 1500 ./check $Q > $DST/check_$Q.log 2>&1 ); C=$?
+  ( cd /verif && VERIF_REPO=$SCR VERIF_ALT=$ALTD timeout 1500 ./check $Q > $DST/check_$Q.log 2>&1 ); C=$?
   res "./check $Q against the change: exit $C  $(grep -c '^VIOLATION' $DST/check_$Q.log) violation lines; first: $(grep -m1 'check=' $DST/check_$Q.log | cut -c1-260)"
 done
-cd /repo && git checkout -- . && git status --short | head -3
+rm -rf $ALTD
+git -C /repo worktree remove --force $SCR; rm -rf $SCR
